@@ -22,7 +22,7 @@ Mirrors `json_parse` → `parse_tokens` and everything below it, function by fun
 | `mk_value` (attach part)            | `attach`                               |
 | `open_container`, `close_container` | `openC`, `closeC`                      |
 | `real_dict_add_key`                 | `addKey`                               |
-| one iteration of `while (src < end)`| `step`                                 |
+| one iteration of `while (src < end)`| `step` (`classify` = the `switch`, `stepString` … `stepSlash` = the cases) |
 | `parse_tokens`, `json_parse`        | `loop`, `parse`                        |
 
 The parser is iterative and so is the model: the chain `ctx->parent → c_parent → …` is the
@@ -126,8 +126,8 @@ def scanString (chk : Bool) : Nat → Bytes → Nat → Bool → Except Err (Nat
         else scanString chk f rest (n + 1) true
       | [] => scanString chk f [] (n + 1) true
     else if c &&& 0x80 != 0 then
-      let k := vseq (c :: rest)
-      if k != 0 then scanString chk f ((c :: rest).drop k) (n + k) esc
+      if vseq (c :: rest) != 0 then
+        scanString chk f ((c :: rest).drop (vseq (c :: rest))) (n + vseq (c :: rest)) esc
       else if chk then .error .invalidUtf8
       else scanString chk f rest (n + 1) esc
     else if c == 0x0A then scanString chk f rest (n + 1) esc
@@ -149,8 +149,8 @@ def parseHex : Bytes → Option Nat
 
 /-- `utf8_put_char(c, dst_p, dstend)` at the end of `parse_uescape` -/
 def putEsc (room : Nat) (c : Nat) (rest : Bytes) : Except Err (Bytes × Bytes) :=
-  let r := Usual.C11.putCharU room c
-  if r.1 then .ok (r.2.2, rest) else .error .invalidUtf16Escape
+  if (Usual.C11.putCharU room c).1 then .ok ((Usual.C11.putCharU room c).2.2, rest)
+  else .error .invalidUtf16Escape
 
 /-- `parse_uescape`: `src` = bytes after `\u` up to the closing quote, `room = dstend - dst`.
 Result: bytes written and the remaining source. -/
@@ -163,12 +163,13 @@ def parseUescape (room : Nat) (src : Bytes) : Except Err (Bytes × Bytes) :=
       if c ≥ 0xDC00 then .error .invalidUtf16Escape
       else
         match src.drop 4 with
-        | 0x5C :: 0x75 :: r =>
-          match parseHex r with
-          | none => .error .invalidUtf16Escape
-          | some c2 =>
-            if c2 < 0xDC00 || c2 > 0xDFFF then .error .invalidUtf16Escape
-            else putEsc room (0x10000 + (c % 1024) * 1024 + c2 % 1024) (r.drop 4)
+        | a :: b :: r =>
+          if a != 0x5C || b != 0x75 then .error .invalidUtf16Escape
+          else match parseHex r with
+            | none => .error .invalidUtf16Escape
+            | some c2 =>
+              if c2 < 0xDC00 || c2 > 0xDFFF then .error .invalidUtf16Escape
+              else putEsc room (0x10000 + (c % 1024) * 1024 + c2 % 1024) (r.drop 4)
         | _ => .error .invalidUtf16Escape
     else putEsc room c (src.drop 4)
 
@@ -220,33 +221,40 @@ def isFloatChar (b : UInt8) : Bool := b == 0x2E || b == 0x65 || b == 0x45
 /-- `isfinite` on the bit pattern -/
 def isFiniteBits (x : UInt64) : Bool := (x >>> 52) &&& 0x7FF != 0x7FF
 
+/-- the digit part of `strtol`: all of `ds` must be digits, at least one -/
+def strtolDigits (ds : Bytes) : Option Nat :=
+  if ds.isEmpty || !ds.all isDigit then none else some (natOfDigits ds)
+
 /-- `strtol`/`strtoll(buf, &tokend, 10)` followed by `*tokend != 0 → failed`, on a token over
 `[0-9+-]`: the value when the *whole* token is `[sign] digits`, `none` otherwise -/
 def strtolTok (tok : Bytes) : Option Int :=
-  let (neg, ds) := match tok with
-    | 0x2D :: r => (true, r)
-    | 0x2B :: r => (false, r)
-    | r => (false, r)
-  if ds.isEmpty || !ds.all isDigit then none
-  else some (if neg then -(natOfDigits ds : Int) else (natOfDigits ds : Int))
+  match tok with
+  | [] => none
+  | c :: r =>
+    if c == 0x2D then (strtolDigits r).map (fun n => -(n : Int))
+    else if c == 0x2B then (strtolDigits r).map (fun n => (n : Int))
+    else (strtolDigits (c :: r)).map (fun n => (n : Int))
 
-/-- `parse_number` (`src` starts at the first byte of the token): value and remaining bytes.
+/-- the conversion part of `parse_number` on the copied token (`buf`): `none` = `goto failed`.
 `sd` = `strtod` on the token: (bits, bytes consumed). -/
-def parseNumber (sd : Bytes → UInt64 × Nat) (src : Bytes) : Except Err (JVal × Bytes) :=
-  let tok := src.takeWhile isNumChar
-  let rest := src.dropWhile isNumChar
-  if tok.length ≥ NUMBER_BUF then .error .numberParseFailed
+def convNumber (sd : Bytes → UInt64 × Nat) (tok : Bytes) : Option JVal :=
+  if tok.length ≥ NUMBER_BUF then none
   else if tok.any isFloatChar then
-    let r := sd tok
-    if r.2 != tok.length || !isFiniteBits r.1 then .error .numberParseFailed
-    else .ok (.float r.1, rest)
+    (if (sd tok).2 != tok.length || !isFiniteBits (sd tok).1 then none else some (.float (sd tok).1))
   else
     match strtolTok tok with
-    | none => .error .numberParseFailed
+    | none => none
     | some v =>
-      if tok.length < 8 then .ok (.int v, rest)
-      else if v < JSON_MININT || v > JSON_MAXINT then .error .numberParseFailed
-      else .ok (.int v, rest)
+      if tok.length < 8 then some (.int v)
+      else if v < JSON_MININT || v > JSON_MAXINT then none
+      else some (.int v)
+
+/-- `parse_number` (`src` starts at the first byte of the token): the scan over
+`[0-9+-.eE]*`, the conversion, and the remaining bytes -/
+def parseNumber (sd : Bytes → UInt64 × Nat) (src : Bytes) : Except Err (JVal × Bytes) :=
+  match convNumber sd (src.takeWhile isNumChar) with
+  | none => .error .numberParseFailed
+  | some v => .ok (v, src.dropWhile isNumChar)
 
 /-- `parse_char4` before `mk_value`: `src` = the four bytes to compare and what follows -/
 def parseChar4 (exp : Bytes) (src : Bytes) : Except Err Bytes :=
@@ -368,8 +376,8 @@ inductive Step where
 
 /-- MAPSTATE, then the rest of the `case` -/
 def withTok (st : St) (tok : Nat) (k : St → Step) : Step :=
-  let ns := STEP st.state tok
-  if ns == 0 then .err .unexpectedSymbol else k { st with state := ns }
+  if STEP st.state tok == 0 then .err .unexpectedSymbol
+  else k { st with state := STEP st.state tok }
 
 /-- a scalar was parsed: `mk_value` attaches it -/
 def valueStep (st : St) (v : JVal) (rest : Bytes) : Step :=
@@ -380,72 +388,104 @@ def valueStep (st : St) (v : JVal) (rest : Bytes) : Step :=
 def isWsByte (c : UInt8) : Bool :=
   c == 0x0A || c == 0x20 || c == 0x09 || c == 0x0D || c == 0x0C || c == 0x0B
 
-/-- one iteration: `c = *src++`, `src` = what follows -/
-def step (sd : Bytes → UInt64 × Nat) (o : Opts) (st : St) (c : UInt8) (src : Bytes) : Step :=
-  if isWsByte c then .next st (src.dropWhile (· == 0x20))
-  else if c == 0x22 then
-    withTok st T_STRING fun st =>
-      match scanBody o src with
-      | .error e => .err e
-      | .ok (body, esc, rest) =>
-        if attachErr st then .err .onlyOneTop
-        else match unescape body esc with
-          | .error e => .err e
-          | .ok s => valueStep st (.str s) rest
-  else if c == 0x6E then
-    withTok st T_OTHER fun st =>
-      match parseChar4 C_NULL (c :: src) with
-      | .error e => .err e
-      | .ok rest => valueStep st .null rest
-  else if c == 0x74 then
-    withTok st T_OTHER fun st =>
-      match parseChar4 C_TRUE (c :: src) with
-      | .error e => .err e
-      | .ok rest => valueStep st (.bool true) rest
-  else if c == 0x66 then
-    withTok st T_OTHER fun st =>
-      match parseChar4 C_ALSE src with
-      | .error e => .err e
-      | .ok rest => valueStep st (.bool false) rest
-  else if c == 0x2D || isDigit c then
-    withTok st T_OTHER fun st =>
-      match parseNumber sd (c :: src) with
-      | .error e => .err e
-      | .ok (v, rest) => valueStep st v rest
-  else if c == 0x5B then
-    withTok st T_OPEN_LIST fun st =>
-      match openC st (.list []) with
-      | .error e => .err e
-      | .ok st' => .next st' src
-  else if c == 0x7B then
-    withTok st T_OPEN_DICT fun st =>
-      match openC st (.dict [] none) with
-      | .error e => .err e
-      | .ok st' => .next st' src
-  else if c == 0x5D then
-    withTok st T_CLOSE_LIST fun st =>
-      match closeC st with
-      | .error e => .err e
-      | .ok st' => .next st' src
-  else if c == 0x7D then
-    withTok st T_CLOSE_DICT fun st =>
-      match closeC st with
-      | .error e => .err e
-      | .ok st' => .next st' src
-  else if c == 0x3A then
-    withTok st T_COLON fun st =>
-      match addKey st with
-      | .error e => .err e
-      | .ok st' => .next st' src
-  else if c == 0x2C then
-    if o.relaxed && (skipExtraComma src st.state).2 then .next st (skipExtraComma src st.state).1
-    else withTok st T_COMMA fun st =>
-      .next st (if o.relaxed then (skipExtraComma src st.state).1 else src)
-  else if c == 0x2F && o.relaxed then
+/-- the `case` labels of the `switch (c)` in `parse_tokens` -/
+inductive CharClass where
+  | ws | quote | litN | litT | litF | num | openL | openD | closeL | closeD | colon | comma | slash | other
+deriving DecidableEq, Repr
+
+def classify (c : UInt8) : CharClass :=
+  if isWsByte c then .ws
+  else if c == 0x22 then .quote
+  else if c == 0x6E then .litN
+  else if c == 0x74 then .litT
+  else if c == 0x66 then .litF
+  else if c == 0x2D || isDigit c then .num
+  else if c == 0x5B then .openL
+  else if c == 0x7B then .openD
+  else if c == 0x5D then .closeL
+  else if c == 0x7D then .closeD
+  else if c == 0x3A then .colon
+  else if c == 0x2C then .comma
+  else if c == 0x2F then .slash
+  else .other
+
+/-- `case '"'` (`src` = bytes after the quote) -/
+def stepString (o : Opts) (st : St) (src : Bytes) : Step :=
+  withTok st T_STRING fun st =>
+    match scanBody o src with
+    | .error e => .err e
+    | .ok (body, esc, rest) =>
+      if attachErr st then .err .onlyOneTop
+      else match unescape body esc with
+        | .error e => .err e
+        | .ok s => valueStep st (.str s) rest
+
+/-- `case 'n' / 't' / 'f'`: `src` = the bytes `parse_char4` compares with `exp` and what follows -/
+def stepLit (st : St) (exp : Bytes) (v : JVal) (src : Bytes) : Step :=
+  withTok st T_OTHER fun st =>
+    match parseChar4 exp src with
+    | .error e => .err e
+    | .ok rest => valueStep st v rest
+
+/-- `case '-', '0' … '9'` (`src` starts at the first byte of the token) -/
+def stepNumber (sd : Bytes → UInt64 × Nat) (st : St) (src : Bytes) : Step :=
+  withTok st T_OTHER fun st =>
+    match parseNumber sd src with
+    | .error e => .err e
+    | .ok (v, rest) => valueStep st v rest
+
+/-- `case '[' / '{'` -/
+def stepOpen (st : St) (tok : Nat) (f : Frame) (src : Bytes) : Step :=
+  withTok st tok fun st =>
+    match openC st f with
+    | .error e => .err e
+    | .ok st' => .next st' src
+
+/-- `case ']' / '}'` -/
+def stepClose (st : St) (tok : Nat) (src : Bytes) : Step :=
+  withTok st tok fun st =>
+    match closeC st with
+    | .error e => .err e
+    | .ok st' => .next st' src
+
+/-- `case ':'` -/
+def stepColon (st : St) (src : Bytes) : Step :=
+  withTok st T_COLON fun st =>
+    match addKey st with
+    | .error e => .err e
+    | .ok st' => .next st' src
+
+/-- `case ','` -/
+def stepComma (o : Opts) (st : St) (src : Bytes) : Step :=
+  if o.relaxed && (skipExtraComma src st.state).2 then .next st (skipExtraComma src st.state).1
+  else withTok st T_COMMA fun st =>
+    .next st (if o.relaxed then (skipExtraComma src st.state).1 else src)
+
+/-- `case '/'` (falls through to `default` in strict mode or when `skip_comment` says no) -/
+def stepSlash (o : Opts) (st : St) (src : Bytes) : Step :=
+  if o.relaxed then
     match skipComment src with
     | some rest => .next st rest
     | none => .err .invalidSymbol
   else .err .invalidSymbol
+
+/-- one iteration: `c = *src++`, `src` = what follows -/
+def step (sd : Bytes → UInt64 × Nat) (o : Opts) (st : St) (c : UInt8) (src : Bytes) : Step :=
+  match classify c with
+  | .ws => .next st (src.dropWhile (· == 0x20))
+  | .quote => stepString o st src
+  | .litN => stepLit st C_NULL .null (c :: src)
+  | .litT => stepLit st C_TRUE (.bool true) (c :: src)
+  | .litF => stepLit st C_ALSE (.bool false) src
+  | .num => stepNumber sd st (c :: src)
+  | .openL => stepOpen st T_OPEN_LIST (.list []) src
+  | .openD => stepOpen st T_OPEN_DICT (.dict [] none) src
+  | .closeL => stepClose st T_CLOSE_LIST src
+  | .closeD => stepClose st T_CLOSE_DICT src
+  | .colon => stepColon st src
+  | .comma => stepComma o st src
+  | .slash => stepSlash o st src
+  | .other => .err .invalidSymbol
 
 def St.init : St := { state := S_INITIAL_VALUE, stack := [], top := none }
 
